@@ -32,6 +32,7 @@ LEVEL_TEXT = (
     "the requested axes (at the array's position, else interpolated with 'extend' and a warning) over partition products, takes the largest block first, "
     "and raises when nothing fits; integrate/average reduce over exactly the axes' dimensions. The numerical identities are not executed."
 )
+LEVEL_TEXT += ' Also decided: several misplaced factors with identical dimensions are interpolated one by one; per-axis metric_weighted mappings are read by axis name whatever their order or extra entries (dispatch and cumsum).'
 LEVEL_NOTE = "Trusted: xarray arithmetic/broadcasting/weighted; the abstract evaluator. Hash-order dependence of the partition choice is C12's subject."
 
 AX, AY, AZ = Sym("AX"), Sym("AY"), Sym("AZ")
